@@ -135,3 +135,44 @@ class _Counter:
 
     def __str__(self):
         return f'{self.niter}'
+
+
+from pySDC.core.space_transfer import SpaceTransfer  # noqa: E402
+
+
+class DenseGalerkinTransfer(SpaceTransfer):
+    """Space transfer between dense workload problems of sizes nf >= nc: prolong = P, restrict = P^T, project = pinv(P)
+    (P seeded by the sizes; identity when the sizes agree).  Workload, not SUT: base_transfer_mass needs restrict/prolong/project."""
+
+    def __init__(self, fine_prob, coarse_prob, params):
+        super().__init__(fine_prob, coarse_prob, params)
+        nf, nc = int(np.prod(np.asarray(fine_prob.u_init).shape)), int(np.prod(np.asarray(coarse_prob.u_init).shape))
+        if nf == nc:
+            self.P = np.eye(nf)
+        else:
+            g = np.random.default_rng(1000 * nf + nc)
+            self.P = np.zeros((nf, nc))
+            for i in range(nf):
+                self.P[i, min(nc - 1, i * nc // nf)] = 1.0
+            self.P += 0.2 * g.standard_normal((nf, nc))
+        self.Pinv = np.linalg.pinv(self.P)
+
+    def _apply(self, Mx, X, prob):
+        a = np.asarray(X)
+        if a.ndim == 2 and a.shape[0] == 2 and type(X).__name__ == 'imex_mesh':
+            out = prob.dtype_f(prob.init)
+            out.impl[:] = Mx @ a[0]
+            out.expl[:] = Mx @ a[1]
+            return out
+        out = prob.dtype_u(prob.init)
+        out[:] = Mx @ a
+        return out
+
+    def restrict(self, F):
+        return self._apply(self.P.T, F, self.coarse_prob)
+
+    def project(self, F):
+        return self._apply(self.Pinv, F, self.coarse_prob)
+
+    def prolong(self, G):
+        return self._apply(self.P, G, self.fine_prob)
